@@ -161,6 +161,16 @@ CANARIES = [
     ("shape-placeholder-does-not-adopt", "c04_shape", "tensor_base.py", "        graph.base.placeholder._view_children.append(self)\n", "", r"C04\.shape.*placeholder_adopts_self_once"),
     ("shape-views-replayed-on-self", "c04_shape", "tensor_base.py", "            parent = node.parent if node.parent is not self else unshaped\n", "            parent = node.parent\n", r"C04\.shape.*views_replayed_on_parent_or_on_unreshaped_self"),
     ("shape-views-not-rerouted", "c04_shape", "tensor_base.py", "            _dup.mirror_tensor(source=view, target=node.tensor)\n            _dup.reroute_ops_through(source=view, target=node.tensor)\n            parent._view_children.append(node.tensor)", "            _dup.mirror_tensor(source=view, target=node.tensor)\n            parent._view_children.append(node.tensor)", r"C04\.shape.*(views_replayed|nothing_else)"),
+    # ---- DuplicatingGraph / restore_old_graph (c04_dupgraph) ------------------------------------------------------------------------
+    ("dup-placeholder-base-is-original-base", "c04_dupgraph", "_utils/duplicating_graph.py", "                    original=child, base=self.base.placeholder\n", "                    original=child, base=self.base.tensor\n", r"C04\.dup.*placeholder_bases"),
+    ("dup-children-not-placeholders", "c04_dupgraph", "_utils/duplicating_graph.py", "            [self[t].placeholder for t in tensor._view_children]", "            [t for t in tensor._view_children]", r"C04\.dup.*placeholder_children_are_placeholders"),
+    ("dup-parent-is-base", "c04_dupgraph", "_utils/duplicating_graph.py", "                parent=tensor,\n", "                parent=self.base.tensor,\n", r"C04\.dup.*(one_node_per_member_with_its_parent|path_to_base)"),
+    ("dup-no-reroute", "c04_dupgraph", "_utils/duplicating_graph.py", "    # point all ops involving `self` to old_tensor instead\n    reroute_ops_through(target=placeholder, source=original)\n", "", r"C04\.dup.*placeholder_mirrors_then_reroutes"),
+    ("dup-first-child-only", "c04_dupgraph", "_utils/duplicating_graph.py", "        for child in tensor._view_children:\n            self._record_mapping(", "        for child in list(tensor._view_children)[:1]:\n            self._record_mapping(", r"C04\.dup"),
+    ("restore-swapped", "c04_dupgraph", "_utils/duplicating_graph.py", "            reroute_ops_through(target=node.tensor, source=node.placeholder)", "            reroute_ops_through(target=node.placeholder, source=node.tensor)", r"C13\.restore.*consumers_rerouted_back"),
+    ("restore-base-not-reset", "c04_dupgraph", "_utils/duplicating_graph.py", "            if node.placeholder._base is not None:\n                node.tensor._base = self.base.tensor\n", "", None),
+    ("restore-base-to-placeholder", "c04_dupgraph", "_utils/duplicating_graph.py", "                node.tensor._base = self.base.tensor\n", "                node.tensor._base = self.base.placeholder\n", r"C13\.restore.*members_point_to_the_family_base_again"),
+    ("restore-root-only", "c04_dupgraph", "_utils/duplicating_graph.py", "        for node in tuple(self):\n            reroute_ops_through(target=node.tensor", "        for node in tuple(self)[:1]:\n            reroute_ops_through(target=node.tensor", r"C13\.restore.*consumers_rerouted_back"),
     ("ctx-exit-no-dec", "c15_ctx", "_utils/__init__.py", "        self._depth -= 1\n        self.state = self._depth_tracker.pop(self._depth)", "        self.state = self._depth_tracker.pop(self._depth - 1)", r"C15\.ctx\..*__exit__\.depth"),
     ("ctx-enter-order", "c15_ctx", "_utils/__init__.py", "        self._depth_tracker[self._depth] = self.state\n        self._depth += 1\n        self.state = self._enter_set_value", "        self._depth += 1\n        self.state = self._enter_set_value\n        self._depth_tracker[self._depth - 1] = self.state", r"C15\.ctx\..*__enter__\.saved"),
     ("ctx-exit-swallow", "c15_ctx", "_utils/__init__.py", "        self.state = self._depth_tracker.pop(self._depth)\n", "        self.state = self._depth_tracker.pop(self._depth)\n        return True\n", r"C15\.ctx\..*(returns_falsy|exception_propagates)"),
